@@ -292,6 +292,73 @@ def work_sequences(frame_idx):
     return n, fails
 
 
+# ---- "every piece of code matches itself" - and not its near miss: one statement per kind of the grammar (the corpus has no coroutines, no match
+# statements, no type parameters ...), each searched for in itself, inside a module, and against the construct that differs in one keyword
+CONSTRUCTS = [
+    "async def f(a):\n    return a\n", "def f(a):\n    return a\n", "async def f(a):\n    async for x in a:\n        await x\n", "def f(a):\n    for x in a:\n        print(x)\n",
+    "async def f(a):\n    async with a as b:\n        return b\n", "def f(a):\n    with a as b:\n        return b\n", "async def f(a):\n    return [x async for x in a]\n", "def f(a):\n    return [x for x in a]\n",
+    "async def f(a):\n    return await a\n", "def f(a):\n    yield a\n", "def f(a):\n    yield from a\n", "def f(a):\n    return (yield)\n", "lambda a, *b, c=1, **d: a\n", "lambda a, b, c=1: a\n",
+    "def f(a, /, b, *, c):\n    pass\n", "def f(a, b, c):\n    pass\n", "def f(*a, **b):\n    pass\n", "def f(a: int = 1) -> str:\n    pass\n", "def f(a=1):\n    pass\n", "def f[T](a: T) -> T:\n    return a\n", "class K[T]:\n    pass\n",
+    "type Alias = int\n", "class K(Base, metaclass=Meta):\n    x: int = 1\n", "class K(Base):\n    x = 1\n", "@deco\nclass K:\n    pass\n", "@deco(1)\ndef f():\n    pass\n", "@deco\ndef f():\n    pass\n",
+    "global g\n", "def f():\n    nonlocal g\n", "def f():\n    global g\n", "del a, b[0], c.d\n", "del a\n", "assert a, 'm'\n", "assert a\n", "raise E from None\n", "raise E\n", "raise\n",
+    "try:\n    a()\nexcept E as e:\n    b(e)\nelse:\n    c()\nfinally:\n    d()\n", "try:\n    a()\nexcept E:\n    b()\n", "try:\n    a()\nexcept* E:\n    b()\n", "try:\n    a()\nfinally:\n    d()\n",
+    "match v:\n    case [a, *rest]:\n        pass\n    case {'k': b, **more}:\n        pass\n    case K(x=1) | None:\n        pass\n    case _ if v:\n        pass\n", "match v:\n    case 1:\n        pass\n",
+    "for a, b in c:\n    pass\nelse:\n    d()\n", "for a in c:\n    pass\n", "while a:\n    break\nelse:\n    b()\n", "while a:\n    continue\n", "with a as b, c as d:\n    pass\n", "with a, c:\n    pass\n", "with (a as b):\n    pass\n",
+    "if a:\n    b()\nelif c:\n    d()\nelse:\n    e()\n", "if a:\n    b()\n", "import a.b as c, d\n", "import a.b\n", "from . import a\n", "from .. import a\n", "from a import *\n", "from a import b as c\n", "from a import b\n",
+    "x = y = 1\n", "x = 1\n", "x: int\n", "x: int = 1\n", "x += 1\n", "x -= 1\n", "x @= y\n", "x //= y\n", "x **= y\n", "(x := 1)\n", "x, *y = z\n", "x, y = z\n", "[x, y] = z\n",
+    "a if b else c\n", "a and b or c\n", "a or b and c\n", "not a\n", "-a\n", "+a\n", "~a\n", "a is b\n", "a is not b\n", "a == b\n", "a != b\n", "a in b\n", "a not in b\n", "a < b <= c\n", "a < b < c\n",
+    "a @ b\n", "a * b\n", "a // b\n", "a / b\n", "a ** b\n", "a << b\n", "a >> b\n", "a | b\n", "a ^ b\n", "a & b\n", "a % b\n", "a[1:2:3]\n", "a[1:2]\n", "a[1:]\n", "a[:]\n", "a[1, 2]\n", "a[1]\n", "a[...]\n", "a.b.c\n", "a.b\n",
+    "f(a, *b, c=1, **d)\n", "f(a, b, c=1)\n", "f(a)(b)\n", "f(*a)\n", "f(**a)\n", "[a, *b]\n", "[a, b]\n", "(a, *b)\n", "(a,)\n", "()\n", "[]\n", "{}\n", "{a, *b}\n", "{a}\n", "{a: b, **c}\n", "{a: b}\n",
+    "[x for x in y if x if y]\n", "[x for x in y if x]\n", "[x for x in y for z in x]\n", "{x for x in y}\n", "{x: 1 for x in y}\n", "(x for x in y)\n", "f'{a!r:>{w}} {b=}'\n", "f'{a}'\n", "f'{a!r}'\n", "f'{a:>3}'\n",
+    "1\n", "1.0\n", "1j\n", "True\n", "None\n", "...\n", "'s'\n", "b's'\n", "'a' 'b'\n", "1_000\n", "0x10\n", "-1\n",
+]
+
+
+def work_constructs(i):
+    from pyrefact import pattern_matching as pm
+    P.quiet()
+    src = CONSTRUCTS[i]
+    fails = []
+    n = 0
+
+    def spans(pattern, source):
+        try:
+            return [m.string for m in pm.finditer(pattern, source)]
+        except Exception as ex:  # noqa: BLE001
+            return f"raises {type(ex).__name__}: {str(ex)[:80]}"
+    first = ast.parse(src).body[0]
+    text = ast.get_source_segment(src, first.value if isinstance(first, ast.Expr) else first)      # the node's own text (parentheses around an expression are not part of it)
+    if getattr(first, "decorator_list", None):
+        text = src.rstrip("\n")                                                                   # the span of a decorated definition starts at its first decorator (C13)
+    n += 1
+    own = spans(src, src)
+    if isinstance(own, str):
+        fails.append({"cls": "construct:raises", "what": f"finditer({src!r}, itself) {own}"})
+        return n, fails
+    if text not in own:
+        fails.append({"cls": "construct:code-does-not-match-itself", "what": f"{src!r} searched in itself: {own!r}"})
+    module = "first = 0\n" + src + "last = 0\n"
+    n += 1
+    inside = spans(src, module)
+    if isinstance(inside, str) or inside.count(text) != 1:
+        fails.append({"cls": "construct:not-found-once-in-a-module", "what": f"{src!r} searched in {module!r}: {inside!r}"})
+    # near misses: no OTHER construct of the list may be reported as an occurrence of this one where the trees differ
+    tree = ast.dump(ast.parse(src))
+    for j, other in enumerate(CONSTRUCTS):
+        if j == i or ast.dump(ast.parse(other)) == tree:
+            continue
+        if abs(len(other) - len(src)) > 12:
+            continue
+        n += 1
+        got = spans(src, other)
+        if isinstance(got, str):
+            continue
+        ofirst = ast.parse(other).body[0]
+        if (other.rstrip("\n") if getattr(ofirst, "decorator_list", None) else ast.get_source_segment(other, ofirst.value if isinstance(ofirst, ast.Expr) else ofirst)) in got:
+            fails.append({"cls": "construct:matches-a-different-construct", "what": f"pattern {src!r} matches the whole of {other!r}"})
+    return n, fails
+
+
 def run(tier, seed):
     rnd = random.Random(seed)
     specs = [list(t) for k in range(0, 5) for t in itertools.product(ELEMS, repeat=k)]
@@ -347,6 +414,15 @@ def run(tier, seed):
             fl.append({"id": f"{f['cls']}::{f['what'][:80]}::{P.sha(s)}", "cls": f["cls"], "input": s, "observed": f["what"], "required": "every occurrence reported; code matches itself"})
     out.append({"name": "c12-search-completeness", "function": "pattern_matching.findall / finditer, core.walk_wildcard", "contract": "a wildcard-free expression / statement pattern taken from the source is found; expression occurrence count equals an independent ast.dump walk",
                 "space": f"{len(sin)} corpus modules x up to 6 single-line expressions / statements taken from each", "bound": "corpus sample", "evaluations": n, "distinct_nontrivial": len(sin), "exhaustive": False, "failures": P.cap(fl), "samples": [sin[0][:200]]})
+    r9 = P.pool_map(work_constructs, list(range(len(CONSTRUCTS))), chunksize=4)
+    fl, n = [], 0
+    for i, (cnt, fs) in enumerate(r9):
+        n += cnt
+        for f in fs:
+            fl.append({"id": f"{f['cls']}::{CONSTRUCTS[i][:40]}::{P.sha(f['what'])}", "cls": f["cls"], "input": CONSTRUCTS[i], "observed": f["what"], "required": "a piece of code matches itself, once, and not a construct with a different tree"})
+    out.append({"name": "c12-constructs-match-themselves", "function": "core.compile_template, match_template, pattern_matching.finditer", "contract": "every construct of the grammar, used as a pattern, is found in itself and once in a module around it, and does not match a near miss (def / async def, for / async for, is / ==, ...)",
+                "space": f"{len(CONSTRUCTS)} constructs (one or more per statement / expression class of Python 3.12) x themselves, a surrounding module, and the other constructs of similar length", "bound": "enumerated constructs",
+                "evaluations": n, "distinct_nontrivial": len(CONSTRUCTS), "exhaustive": True, "failures": P.cap(fl), "samples": [CONSTRUCTS[0], CONSTRUCTS[40]]})
     return out
 
 
